@@ -5,10 +5,8 @@ only after entering, is written only while it is in and only within the capacity
 and the buffers that entered and have not left are exactly the buffers (capacity > 0) of the live
 boxes — so once every value is gone every buffer has left (no leak, no double free).
 
-MODEL NOTE (reported to the orchestrator): the model emits `exportBuf b` also for a `Vec` of
-capacity 0 (`intoVec`, `toVec` steal path, `mutateLeak`) and a zero-length `write b 0 0` on a
-capacity-0 box (`writeView`); such a `b` never entered.  The ledger check `EvGood` tolerates
-exactly these two degenerate emissions (its second disjuncts); everything else is strict.
+The model is strict about capacity-0 Vecs (they own no allocation): no `exportBuf` and no `write`
+is emitted for them, so every clause below holds without exception.
 -/
 import HipVerif.Lemmas.CoreLedgerB4
 import HipVerif.Lemmas.CoreLedgerTraceB
@@ -121,18 +119,12 @@ theorem stay_or_leave (evs : List Event) : ∀ (L : Ledger) (b : Nat), b ∈ L.l
       · exact Or.inl h1
       · exact Or.inr ⟨e', List.mem_cons_of_mem _ he', hl'⟩
 
-theorem ids_mono_run (evs : List Event) : ∀ (L : Ledger) {b : Nat}, b ∈ L.ids → b ∈ (L.run evs).ids := by
-  induction evs with
-  | nil => intro L b h; exact h
-  | cons e r ih => intro L b h; exact ih _ (Ledger.ids_mono L e h)
-
 /-- **(B1) The events of every history balance.**  From a well-formed state without boxes, for
 the events `evs` of any history ending in `s`:
 1. every event passes its ledger check;
 2. every buffer identity ENTERS (`allocBuf`, `importBuf`, new side of `growBuf`) at most once;
 3. every buffer identity LEAVES (`freeBuf`, `exportBuf`, old side of `growBuf`) at most once;
-4. a buffer leaves only after it entered — except for the model's degenerate `exportBuf` of a
-   capacity-0 Vec, whose identity never enters at all;
+4. a buffer leaves only after it entered;
 5. the buffers that entered and have not left are exactly the buffers of the live boxes of `s`
    whose Vec has a capacity `> 0`, each owned by exactly one live box. -/
 theorem buffers_balanced {s0 : State} (w : Wf cfg s0) (h0 : s0.inners = []) (ops : List Op) :
@@ -140,8 +132,7 @@ theorem buffers_balanced {s0 : State} (w : Wf cfg s0) (h0 : s0.inners = []) (ops
     (∀ b, (runEvents cfg s0 ops).countP (fun e => entersId e == some b) ≤ 1) ∧
     (∀ b, (runEvents cfg s0 ops).countP (fun e => leavesId e == some b) ≤ 1) ∧
     (∀ pre e post b, runEvents cfg s0 ops = pre ++ e :: post → leavesId e = some b →
-      (∃ e', e' ∈ pre ∧ entersId e' = some b) ∨
-      (e = .exportBuf b ∧ ∀ e', e' ∈ runEvents cfg s0 ops → entersId e' ≠ some b)) ∧
+      ∃ e', e' ∈ pre ∧ entersId e' = some b) ∧
     (∀ b c, (b, c) ∈ (Ledger.empty.run (runEvents cfg s0 ops)).live ↔
       0 < c ∧ ∃ j y, getI (run cfg s0 ops).1 j = some y ∧ y.live = true ∧ y.buf = b ∧ y.cap = c) ∧
     (∀ j j' y y', getI (run cfg s0 ops).1 j = some y → getI (run cfg s0 ops).1 j' = some y' →
@@ -157,45 +148,29 @@ theorem buffers_balanced {s0 : State} (w : Wf cfg s0) (h0 : s0.inners = []) (ops
     have := leaves_at_most_once _ ledgerWf_empty hacc b
     split at this <;> omega
   · intro pre e post b hsplit hleave
-    rw [hsplit] at hacc
-    obtain ⟨hpre, hgood, hpost⟩ := accepted_split hacc
-    have hin : b ∈ (Ledger.empty.run pre).liveIds → ∃ e', e' ∈ pre ∧ entersId e' = some b := by
-      intro hm
-      obtain ⟨c, hc⟩ := Ledger.mem_liveIds.mp hm
-      rcases live_entered pre Ledger.empty b c hc with h | ⟨e', he', hw⟩
-      · cases h
-      · exact ⟨e', he', by simp [entersId, hw]⟩
-    cases e with
-    | freeBuf b0 => simp [leavesId] at hleave; subst hleave; exact Or.inl (hin hgood)
-    | growBuf old new c0 => simp [leavesId] at hleave; subst hleave; exact Or.inl (hin hgood.1)
-    | exportBuf b0 =>
-      simp [leavesId] at hleave; subst hleave
-      rcases hgood with hg | hg
-      · exact Or.inl (hin hg)
-      · refine Or.inr ⟨rfl, ?_⟩
-        intro e' he' hent
-        rw [hsplit] at he'
-        rcases List.mem_append.mp he' with hm | hm
-        · obtain ⟨pre1, pre2, rfl⟩ := List.append_of_mem hm
-          apply hg
-          have h1 : b0 ∈ ((Ledger.empty.run pre1).apply e').ids := Ledger.enters_ids _ hent
-          have h2 := ids_mono_run pre2 _ h1
-          rw [Ledger.run_append]
-          exact h2
-        · rcases List.mem_cons.mp hm with rfl | hm
-          · simp [entersId, entersWith] at hent
-          · have hcount := enters_at_most_once post hpost b0
-            have hids : b0 ∈ ((Ledger.empty.run pre).apply (.exportBuf b0)).ids :=
-              List.mem_append.mpr (Or.inr (Ledger.leaves_gone _ rfl))
-            simp only [hids, if_true] at hcount
-            have : 0 < post.countP (fun e => entersId e == some b0) :=
-              List.countP_pos_iff.mpr ⟨e', hm, by simp [hent]⟩
-            omega
-    | allocBuf _ _ => simp [leavesId] at hleave
-    | importBuf _ _ => simp [leavesId] at hleave
-    | allocInner _ => simp [leavesId] at hleave
-    | freeInner _ => simp [leavesId] at hleave
-    | write _ _ _ => simp [leavesId] at hleave
+    exact leaves_after_enter hacc hsplit hleave
+
+/-- **(B1, prefix-closed form) `#leaves(b) ≤ #enters(b) ≤ 1` on every prefix** of the event list of
+every history, for every buffer identity `b`: at no moment has a buffer been released more often
+than it was obtained, and no identity is ever obtained twice. -/
+theorem enter_leave_pairing {s0 : State} (w : Wf cfg s0) (h0 : s0.inners = []) (ops : List Op)
+    {pre post : List Event} (hsplit : runEvents cfg s0 ops = pre ++ post) (b : Nat) :
+    pre.countP (fun e => leavesId e == some b) ≤ pre.countP (fun e => entersId e == some b) ∧
+    pre.countP (fun e => entersId e == some b) ≤ 1 := by
+  have hacc := (buffers_balanced (cfg := cfg) w h0 ops).1
+  rw [hsplit] at hacc
+  exact enter_leave_counts (accepted_append.mp hacc).1 b
+
+/-- **(B1) the buffer of every live box was obtained exactly once and never released**: in the
+final state of every history, a live box whose Vec has capacity `c > 0` and buffer `b` has exactly
+one enter event for `b` in the history (carrying that very capacity `c`) and no leave event. -/
+theorem live_box_buffer_entered {s0 : State} (w : Wf cfg s0) (h0 : s0.inners = []) (ops : List Op)
+    {j : Nat} {y : Inner} (hy : getI (run cfg s0 ops).1 j = some y) (hl : y.live = true) (hc : 0 < y.cap) :
+    (runEvents cfg s0 ops).countP (fun e => entersId e == some y.buf) = 1 ∧
+    (runEvents cfg s0 ops).countP (fun e => leavesId e == some y.buf) = 0 ∧
+    ∃ e, e ∈ runEvents cfg s0 ops ∧ entersWith e = some (y.buf, y.cap) := by
+  obtain ⟨hacc, _, _, _, hiff, _⟩ := buffers_balanced (cfg := cfg) w h0 ops
+  exact live_entered_once_never_left hacc ((hiff y.buf y.cap).mpr ⟨hc, j, y, hy, hl, rfl, rfl⟩)
 
 /-- **(B1, corollary) every buffer that entered has left once all values are gone.** -/
 theorem all_buffers_released {s0 : State} (w : Wf cfg s0) (h0 : s0.inners = []) (ops : List Op)
@@ -222,24 +197,20 @@ history is a well-formed range, and at that moment buffer `b` is in the system w
 capacity `c ≥ hi` — the capacity of the very event with which `b` entered (`allocBuf b c`,
 `importBuf b c`, or `growBuf _ b c`: identities are never reused, so a reallocation gets a new
 identity).  This covers the boxes' Vecs as well as the temporary Vecs of `Vec::from(hip)` and of a
-`mutate` guard.  (Degenerate alternative: the model's zero-length `write b 0 0` on a capacity-0
-Vec, whose identity was never seen.) -/
+`mutate` guard. -/
 theorem writes_within_cap {s0 : State} (w : Wf cfg s0) (h0 : s0.inners = []) (ops : List Op)
     {pre post : List Event} {b lo hi : Nat}
     (hsplit : runEvents cfg s0 ops = pre ++ Event.write b lo hi :: post) :
     lo ≤ hi ∧
-    ((∃ c, (b, c) ∈ (Ledger.empty.run pre).live ∧ hi ≤ c ∧ ∃ e', e' ∈ pre ∧ entersWith e' = some (b, c)) ∨
-     (hi = 0 ∧ b ∉ (Ledger.empty.run pre).ids)) := by
+    ∃ c, (b, c) ∈ (Ledger.empty.run pre).live ∧ hi ≤ c ∧ ∃ e', e' ∈ pre ∧ entersWith e' = some (b, c) := by
   have hacc := (buffers_balanced (cfg := cfg) w h0 ops).1
   rw [hsplit] at hacc
   obtain ⟨_, hgood, _⟩ := accepted_split hacc
-  refine ⟨hgood.1, ?_⟩
-  rcases hgood.2 with ⟨c, hc, hle⟩ | h
-  · left
-    rcases live_entered pre Ledger.empty b c hc with h | h
-    · cases h
-    · exact ⟨c, hc, hle, h⟩
-  · exact Or.inr h
+  obtain ⟨hlh, c, hc, hle⟩ := hgood
+  refine ⟨hlh, c, hc, hle, ?_⟩
+  rcases live_entered pre Ledger.empty b c hc with h | h
+  · cases h
+  · exact h
 
 /-- **(B3) No write after a buffer left the system** (freed, exported, or reallocated away). -/
 theorem no_write_after_leave {s0 : State} (w : Wf cfg s0) (h0 : s0.inners = []) (ops : List Op)
